@@ -272,6 +272,7 @@ def run_rules(mod, ctx: 'Ctx') -> Optional[AnalysisError]:
     import re
     import sys
     from . import rules as rules_pkg
+    from .roles import RoleMissing as _RoleMissing
     pat = re.compile(r'^(r\d\d_|r_link|rule_|restore_)')
     state = {'depth': 0, 'errors': []}
     patched = []
@@ -287,6 +288,11 @@ def run_rules(mod, ctx: 'Ctx') -> Optional[AnalysisError]:
                 state['depth'] += 1
                 try:
                     return __fn(*a, **kw)
+                except _RoleMissing as e:
+                    e = AnalysisError(f'{__fn.__name__}: {e}')
+                    state['errors'].append(e)
+                    ctx.note(f'ANALYSIS-ERROR in {__fn.__name__}: {e} (the other rules were still run)')
+                    return None
                 except AnalysisError as e:
                     state['errors'].append(e)
                     ctx.note(f'ANALYSIS-ERROR in {__fn.__name__}: {e} (the other rules were still run)')
